@@ -216,10 +216,209 @@ theorem angle_stable : Stable .angle := by
       exact ⟨bs, hbs, by simpa using sb⟩
     · cases sb
 
+/-! ### colour structures, date, 14-character strings — all payloads -/
+
+/-- 242.600 xyY colour: two 16-bit coordinates, brightness, two validity bits -/
+theorem xyY_stable : Stable .xyY := by
+  intro data v h
+  simp only [decode] at h
+  split at h
+  · cases h
+  · rename_i hl
+    simp only [ne_eq, Decidable.not_not] at hl
+    rcases data with _ | ⟨a, _ | ⟨b, _ | ⟨c, _ | ⟨d, _ | ⟨e, _ | ⟨f, _ | ⟨g, _ | ⟨x, t⟩⟩⟩⟩⟩⟩⟩⟩ <;> simp at hl
+    simp [byteAt] at h
+    split at h
+    · cases h
+    · simp only [R.pure_eq, R.ok.injEq] at h
+      subst h
+      refine ⟨_, rfl, ?_⟩
+      generalize (g &&& 1#8 != 0#8) = cv
+      generalize (g >>> 1 &&& 1#8 != 0#8) = bv
+      cases cv <;> cases bv <;> simp [decode, byteAt, b2n]
+
+/-- 251.600 RGBW colour: four channels, four validity bits -/
+theorem rgbw_stable : Stable .rgbw := by
+  intro data v h
+  simp only [decode] at h
+  split at h
+  · cases h
+  · rename_i hl
+    simp only [ne_eq, Decidable.not_not] at hl
+    rcases data with _ | ⟨a, _ | ⟨b, _ | ⟨c, _ | ⟨d, _ | ⟨e, _ | ⟨f, _ | ⟨g, _ | ⟨x, t⟩⟩⟩⟩⟩⟩⟩⟩ <;> simp at hl
+    simp [byteAt] at h
+    split at h
+    · cases h
+    · simp only [R.pure_eq, R.ok.injEq] at h
+      subst h
+      refine ⟨_, rfl, ?_⟩
+      generalize (g &&& 1#8 != 0#8) = wv
+      generalize (g >>> 1 &&& 1#8 != 0#8) = bv
+      generalize (g >>> 2 &&& 1#8 != 0#8) = gv
+      generalize (g >>> 3 &&& 1#8 != 0#8) = rv
+      cases wv <;> cases bv <;> cases gv <;> cases rv <;> simp [decode, byteAt, b2n]
+
+theorem dateValid_bounds (y m d : Nat) (h : dateValid y m d = true) :
+    1990 ≤ y ∧ y ≤ 2089 ∧ 1 ≤ m ∧ m ≤ 12 ∧ 1 ≤ d ∧ d ≤ 31 := by
+  simp only [dateValid, Bool.and_eq_true, decide_eq_true_eq] at h
+  obtain ⟨⟨⟨⟨⟨h1, h2⟩, h3⟩, h4⟩, h5⟩, h6⟩ := h
+  have : daysIn y m ≤ 31 := by
+    unfold daysIn
+    split
+    · split <;> omega
+    · split <;> omega
+  omega
+
+/-- a valid date written as (day, month, two-digit year) is read back as itself -/
+theorem date_fields_roundtrip (y m d : Nat) (hv : dateValid y m d = true) :
+    decodeDateFields d m (if y < 2000 then y - 1900 else y - 2000)
+      = .ok (.date (BitVec.ofNat 16 y) (BitVec.ofNat 8 m) (BitVec.ofNat 8 d)) := by
+  obtain ⟨h1, h2, h3, h4, h5, h6⟩ := dateValid_bounds y m d hv
+  unfold decodeDateFields
+  by_cases hy : y < 2000
+  · simp only [hy, if_true]
+    have e : ¬ (y - 1900 > 99) := by omega
+    have z : decide (y - 1900 = 0 ∧ m = 0 ∧ d = 0) = false := by simp; omega
+    simp only [e, if_false, z, Bool.false_eq_true]
+    have e2 : y - 1900 ≥ 90 := by omega
+    simp only [e2, if_true]
+    have e3 : y - 1900 + 1900 = y := by omega
+    rw [e3, if_pos hv]
+  · simp only [hy, if_false]
+    have e : ¬ (y - 2000 > 99) := by omega
+    have z : decide (y - 2000 = 0 ∧ m = 0 ∧ d = 0) = false := by simp; omega
+    simp only [e, if_false, z, Bool.false_eq_true]
+    have e2 : ¬ (y - 2000 ≥ 90) := by omega
+    simp only [e2, if_false]
+    have e3 : y - 2000 + 2000 = y := by omega
+    rw [e3, if_pos hv]
+
+theorem mask_small : (∀ d, d < 32 → ((BitVec.ofNat 8 d : Byte) &&& 0x1F).toNat = d) ∧
+    (∀ m, m < 16 → ((BitVec.ofNat 8 m : Byte) &&& 0xF).toNat = m) ∧
+    (∀ y, y < 128 → ((BitVec.ofNat 8 y : Byte) &&& 0x7F).toNat = y) := by decide
+
+theorem ite_ok {c : Prop} [Decidable c] {a v : DVal} (h : (if c then R.ok a else R.err) = R.ok v) : c ∧ a = v := by
+  split at h
+  · rename_i hc; exact ⟨hc, by simpa using h⟩
+  · cases h
+
+/-- what the date decoder yields is always a valid calendar date in 1990..2089 -/
+theorem decodeDateFields_valid (d0 m0 y0 : Nat) (v : DVal) (h : decodeDateFields d0 m0 y0 = .ok v) :
+    ∃ y m d, dateValid y m d = true ∧ v = .date (BitVec.ofNat 16 y) (BitVec.ofNat 8 m) (BitVec.ofNat 8 d) := by
+  unfold decodeDateFields at h
+  by_cases hy : y0 > 99
+  · rw [if_pos hy] at h; cases h
+  · rw [if_neg hy] at h
+    dsimp only at h
+    obtain ⟨hv, rfl⟩ := ite_ok h
+    exact ⟨_, _, _, hv, rfl⟩
+
+/-- 11.001 date: every payload the decoder accepts (two-digit year window, the all-zero payload, the
+    calendar check) re-encodes to a payload that decodes to the same date -/
+theorem date_stable : Stable .date := by
+  intro data v h
+  simp only [decode] at h
+  split at h
+  · cases h
+  · rename_i hl
+    simp only [ne_eq, Decidable.not_not] at hl
+    rcases data with _ | ⟨a, _ | ⟨b, _ | ⟨c, _ | ⟨d, _ | ⟨e, t⟩⟩⟩⟩⟩ <;> simp at hl
+    simp only [byteAt, List.getElem?_cons_succ, List.getElem?_cons_zero, R.bind_ok] at h
+    obtain ⟨y, m, dd, hv, rfl⟩ := decodeDateFields_valid _ _ _ _ h
+    obtain ⟨h1, h2, h3, h4, h5, h6⟩ := dateValid_bounds y m dd hv
+    have ty : (BitVec.ofNat 16 y).toNat = y := by simp [BitVec.toNat_ofNat]; omega
+    have tm : (BitVec.ofNat 8 m : Byte).toNat = m := by simp [BitVec.toNat_ofNat]; omega
+    have td : (BitVec.ofNat 8 dd : Byte).toNat = dd := by simp [BitVec.toNat_ofNat]; omega
+    have hcond : (BitVec.ofNat 16 y).toNat ≥ 1990 ∧ (BitVec.ofNat 16 y).toNat ≤ 2089 ∧
+        dateValid (BitVec.ofNat 16 y).toNat (BitVec.ofNat 8 m : Byte).toNat (BitVec.ofNat 8 dd : Byte).toNat = true := by
+      rw [ty, tm, td]; exact ⟨h1, h2, hv⟩
+    refine ⟨[0, BitVec.ofNat 8 dd &&& 0x1F, BitVec.ofNat 8 m &&& 0xF,
+      BitVec.ofNat 8 (if y < 2000 then y - 1900 else y - 2000) &&& 0x7F], ?_, ?_⟩
+    · simp only [encode, ty, tm, td]
+      rw [if_pos ⟨h1, h2, hv⟩]
+    simp only [decode, List.length_cons, List.length_nil, ne_eq, not_true_eq_false, ↓reduceIte, byteAt,
+      List.getElem?_cons_succ, List.getElem?_cons_zero, R.bind_ok]
+    have yy : (if y < 2000 then y - 1900 else y - 2000) < 128 := by split <;> omega
+    simp only [BitVec.and_assoc, BitVec.and_self]
+    rw [mask_small.1 dd (by omega), mask_small.2.1 m (by omega), mask_small.2.2 _ yy]
+    exact date_fields_roundtrip y m dd hv
+
+/-- the character loop of the 14-character strings survives its own encoding: characters are non-zero
+    and within the mask, so they are written back as they are and read again as they are; the padding
+    zeros end the loop where it ended before -/
+theorem strLoop_roundtrip (mask : Byte) (limit : Nat) (hm : mask.toNat = limit)
+    (hmm : ∀ b : Byte, (b &&& mask) &&& mask = b &&& mask) (hz : (0 : Byte) &&& mask = 0) :
+    ∀ (l : List Byte) (k : Nat),
+      strLoop mask ((strLoop mask l).map (strChar limit) ++ List.replicate k 0) = strLoop mask l := by
+  intro l
+  induction l with
+  | nil =>
+    intro k
+    simp only [strLoop, List.map_nil, List.nil_append]
+    cases k with
+    | zero => rfl
+    | succ k => simp [List.replicate_succ, strLoop, hz]
+  | cons b t ih =>
+    intro k
+    by_cases hb : (b &&& mask) = 0
+    · simp only [strLoop, hb, if_true, List.map_nil, List.nil_append]
+      cases k with
+      | zero => rfl
+      | succ k => simp [List.replicate_succ, strLoop, hz]
+    · have hle : (b &&& mask).toNat ≤ limit := by
+        rw [← hm, BitVec.toNat_and]
+        exact Nat.and_le_right
+      have hc : strChar limit (b &&& mask).toNat = b &&& mask := by
+        simp only [strChar, Nat.not_lt.mpr hle, if_false, BitVec.ofNat_toNat, BitVec.setWidth_eq]
+      simp only [strLoop, hb, if_false, List.map_cons, List.cons_append, hc, hmm, ih k]
+
+theorem strLoop_length (mask : Byte) : ∀ l : List Byte, (strLoop mask l).length ≤ l.length := by
+  intro l
+  induction l with
+  | nil => simp [strLoop]
+  | cons b t ih =>
+    simp only [strLoop]
+    split
+    · simp
+    · simp only [List.length_cons]; omega
+
+theorem str14_stable (s : Shape) (mask : Byte) (limit : Nat)
+    (hdec : ∀ data, decode s data = if data.length ≠ 15 then .err else .ok (.str (strLoop mask (data.drop 1))))
+    (henc : ∀ cps, encode s (.str cps) =
+      some (0 :: (cps.take 14).map (strChar limit) ++ List.replicate (14 - ((cps.take 14).map (strChar limit)).length) 0))
+    (hm : mask.toNat = limit) (hmm : ∀ b : Byte, (b &&& mask) &&& mask = b &&& mask) (hz : (0 : Byte) &&& mask = 0) :
+    Stable s := by
+  intro data v h
+  rw [hdec] at h
+  split at h
+  · cases h
+  · rename_i hl
+    simp only [ne_eq, Decidable.not_not] at hl
+    simp only [R.ok.injEq] at h
+    subst h
+    have hlen : (strLoop mask (data.drop 1)).length ≤ 14 := by
+      have := strLoop_length mask (data.drop 1)
+      simp only [List.length_drop, hl] at this; omega
+    have htake : (strLoop mask (data.drop 1)).take 14 = strLoop mask (data.drop 1) := List.take_of_length_le hlen
+    refine ⟨_, henc _, ?_⟩
+    rw [hdec]
+    simp only [htake, List.length_cons, List.length_append, List.length_map, List.length_replicate]
+    rw [if_neg (by omega)]
+    simp only [List.drop_succ_cons, List.drop_zero, List.cons_append]
+    rw [strLoop_roundtrip mask limit hm hmm hz]
+
+/-- 16.000 (ASCII, reserved top bit dropped) -/
+theorem strAscii_stable : Stable .strAscii :=
+  str14_stable .strAscii 0x7F 127 (fun _ => rfl) (fun _ => rfl) rfl (by decide) (by decide)
+
+/-- 16.001 (ISO 8859-1) -/
+theorem strLatin1_stable : Stable .strLatin1 :=
+  str14_stable .strLatin1 0xFF 255 (fun _ => rfl) (fun _ => rfl) rfl (by decide) (by decide)
+
 /-- which shapes have a Lean stability theorem so far -/
 def provedStable : Shape → Bool
   | .b1 | .u8 | .v8 | .u16 | .v16 | .u32 | .v32 | .f32 | .rgb | .scene17 | .scene18 | .time | .varstr
-  | .scaled | .angle => true
+  | .scaled | .angle | .xyY | .rgbw | .date | .strAscii | .strLatin1 => true
   | _ => false
 
 /-- `_partial`: the 16-bit float types (9.xxx, all 65,536 encodings each), 8.003/8.004/8.010,
@@ -228,7 +427,7 @@ def provedStable : Shape → Bool
     theorems (kernel sweeps over 2^16 encodings, split over modules) are not finished.
     This theorem states how many registered types are covered by the theorems above. -/
 theorem coverage_partial :
-    (Gen.shapes.filter (fun s => provedStable s.2)).length = 146 ∧ Gen.shapes.length = 174 := by
+    (Gen.shapes.filter (fun s => provedStable s.2)).length = 151 ∧ Gen.shapes.length = 174 := by
   decide +kernel
 
 /-- every registered type's Pack / Unpack was recognised as one of the modelled shapes (regenerated
